@@ -15,9 +15,10 @@
 #endif
 
 /* const char * : abstract C string (content identity, length, null-ness, owner tag for C03) */
-typedef struct { int isnull; int id; int len; int owner; } cstr;
-static inline cstr cstr_lit(int id, int len) { cstr c; c.isnull = 0; c.id = id; c.len = len; c.owner = 0; return c; }
-static inline cstr cstr_null(void) { cstr c; c.isnull = 1; c.id = 0; c.len = 0; c.owner = 0; return c; }
+typedef struct { int isnull; int id; int len; int owner; const void *ptr; } cstr;   /* ptr: set only by reinterpret_cast<const char*>(&object) */
+static inline cstr cstr_lit(int id, int len) { cstr c; c.isnull = 0; c.id = id; c.len = len; c.owner = 0; c.ptr = 0; return c; }
+static inline cstr cstr_from_ptr(const void *p, unsigned long n) { cstr c; c.isnull = 0; c.id = 0; c.len = (int)n; c.owner = 0; c.ptr = p; return c; }
+static inline cstr cstr_null(void) { cstr c; c.isnull = 1; c.id = 0; c.len = 0; c.owner = 0; c.ptr = 0; return c; }
 #define CSTR_VALID(c) (IS_BOOL((c).isnull) && (c).len >= 0 && ((c).isnull ? (c).len == 0 : 1))
 /* equality of the text a C string denotes (null == empty, as QString::fromUtf8/QByteArray(const char*) treat them) */
 #define CSTR_SAME_TEXT(a, b) (((a).len == 0 && (b).len == 0) || ((a).len == (b).len && (a).id == (b).id))
